@@ -38,6 +38,9 @@ def synthetic_events(n, seed):
     from vermouth.processors.average_beads import DoAverageBead
     rng = random.Random(seed)
     events = []
+    # every other chunk runs all its molecules (force fields with and without a centre weight, in random order) through ONE
+    # processor object: what the first force field configured must not stick to the processor
+    shared = DoAverageBead() if seed % 2 == 0 else None
     for _ in range(n):
         ff = ForceField(name='verif_c09')
         use_mass = rng.random() < 0.5
@@ -79,7 +82,7 @@ def synthetic_events(n, seed):
                         for node in cg.nodes.values():
                             if key in node['graph']:
                                 node['graph'].nodes[key]['position'] = np.array(q, dtype=float) / 1000.0
-            DoAverageBead().run_molecule(cg)
+            (shared or DoAverageBead()).run_molecule(cg)
             for p, (members, weights) in enumerate(parts):
                 cons = []
                 for m in cg.nodes[p]['graph'].nodes:
